@@ -68,6 +68,8 @@ type bufferManager struct {
 	refCount     int32
 	mmapMapType  MemMapType
 	memFd        int
+	// set once the share memory is unmapped: streams that outlive their session must not touch it any more
+	unmapped uint32
 }
 
 type globalBufferManager struct {
@@ -480,6 +482,9 @@ func (b *bufferManager) remainSize() uint32 {
 
 // alloc single buffer slice , whose performance better than allocShmBuffers.
 func (b *bufferManager) allocShmBuffer(size uint32) (*bufferSlice, error) {
+	if b.isUnmapped() {
+		return nil, ErrNoMoreBuffer
+	}
 	if size <= b.maxSliceSize {
 		for i := range b.lists {
 			if size <= *b.lists[i].capPerBuffer {
@@ -495,6 +500,9 @@ func (b *bufferManager) allocShmBuffer(size uint32) (*bufferSlice, error) {
 }
 
 func (b *bufferManager) allocShmBuffers(slices *sliceList, size uint32) (allocSize int64) {
+	if b.isUnmapped() {
+		return 0
+	}
 	remain := int64(size)
 	for i := len(b.lists) - 1; i >= 0 && remain > 0; i-- {
 		for remain > 0 {
@@ -515,7 +523,7 @@ func (b *bufferManager) recycleBuffer(slice *bufferSlice) {
 	if slice == nil {
 		return
 	}
-	if slice.isFromShm {
+	if slice.isFromShm && !b.isUnmapped() {
 		for i := range b.lists {
 			if slice.cap == *b.lists[i].capPerBuffer {
 				b.lists[i].push(slice)
@@ -529,6 +537,10 @@ func (b *bufferManager) recycleBuffer(slice *bufferSlice) {
 
 func (b *bufferManager) recycleBuffers(slice *bufferSlice) {
 	if slice == nil {
+		return
+	}
+	if b.isUnmapped() {
+		putBackBufferSlice(slice)
 		return
 	}
 	if slice.isFromShm {
@@ -557,6 +569,9 @@ func (b *bufferManager) sliceSize() (size int) {
 }
 
 func (b *bufferManager) readBufferSlice(offset uint32) (*bufferSlice, error) {
+	if b.isUnmapped() {
+		return nil, errors.New("share memory had been unmapped")
+	}
 	if int(offset)+bufferHeaderSize >= len(b.mem) {
 		return nil, fmt.Errorf("broken share memory. readBufferSlice unexpected offset:%d buffers cap:%d",
 			offset, len(b.mem))
@@ -580,6 +595,7 @@ func (b *bufferManager) unmap() {
 		}
 		time.Sleep(time.Microsecond * 100)
 	}
+	atomic.StoreUint32(&b.unmapped, 1)
 	if err := syscall.Munmap(b.mem); err != nil {
 		internalLogger.warnf("bufferManager unmap error:" + err.Error())
 	}
@@ -599,6 +615,10 @@ func (b *bufferManager) unmap() {
 			internalLogger.infof("bufferManager close fd:%d", b.memFd)
 		}
 	}
+}
+
+func (b *bufferManager) isUnmapped() bool {
+	return atomic.LoadUint32(&b.unmapped) == 1
 }
 
 func (b *bufferManager) checkBufferReturned() bool {
